@@ -591,7 +591,11 @@ G_LR = [["fwd", 1], ["mf", [2, 4]], ["and", [0, 3, 4]], ["lit", "+"], ["word", D
 # the smallest F-15 shape: a Forward that is not even recursive
 G_FW = [["fwd", 1], ["word", "ab"]]
 
-GRAMMARS = {"expr": G_EXPR, "act": G_ACT, "lr": G_LR, "fw": G_FW}
+# the left-recursive rule as FIRST element of a sequence: And.parseImpl extends the result the Forward handed back in place
+#   S = E ';' ;  E <<= E '+' num | num
+G_LR2 = [["and", [1, 6]], ["fwd", 2], ["mf", [3, 5]], ["and", [1, 4, 5]], ["lit", "+"], ["word", DIGITS], ["lit", ";"]]
+
+GRAMMARS = {"expr": G_EXPR, "act": G_ACT, "lr": G_LR, "fw": G_FW, "lr2": G_LR2}
 
 F15_CLASS_WRONG = "F-15:lr:wrong-result-predicted-by-model"
 F15_CLASS_KEYERR = "F-15:lr:internal-KeyError-predicted-by-model"
@@ -819,6 +823,7 @@ def job_sets(thorough):
         (spec("lr", "lr", [[ps, 0, "1+2+3"], [ps, 0, "9"]]), 2),
         (spec("lr", "lr", [[ps, 0, "1+2"], [ps, 0, "1+2"]]), 2),
         (spec("fw", "lr", [[ps, 0, "a"], [ps, 0, "b"]]), 3),
+        (spec("lr2", "lr", [[ps, 0, "1+2;"], [ps, 0, "1+2;"]]), 2),                         # same input: the second thread reads the first one's memo entries
         (spec("lr", "lr", [[sc, 0, "1+2"], [ps, 0, "3"]]), 1),
         # parse action calling parse_string below a Forward: reset_cache (packrat_cache_lock) while holding recursion_lock
         (spec("act", "lr", [[ps, 0, "ab,b"], [ps, 0, "a"]]), 2),
